@@ -191,9 +191,12 @@ def r2(ctx):
     # literal cascade_iterator sites per method
     sites = {}
     for mname, f in cls.methods.items():
+        if not _mentions_walk(f.node):
+            continue
+        env_f = env_of(f.node)
         for c in calls_in(f.node):
-            if _is_walk(c, env_of(f.node)):  # also `walk = mapper.cascade_iterator; walk(..)`
-                lit = const_str(resolve_name(env_of(f.node), c.args[0]))  # `cascade_type = "delete"` local
+            if _is_walk(c, env_f):  # also `walk = mapper.cascade_iterator; walk(..)`
+                lit = const_str(resolve_name(env_f, c.args[0]))  # `cascade_type = "delete"` local
                 ctx.require(lit is not None, f"{f.key}: cascade_iterator called with a non-literal type `{unparse(c.args[0])}`")
                 sites.setdefault(mname, []).append((lit, c))
                 ctx.functions_analysed.add(f.key)  # stored refactors of session.py are replayed by the self-test
@@ -201,8 +204,21 @@ def r2(ctx):
     # merge: prop.merge under the 'merge' flag
     rp = ctx.func("orm/relationships.py::RelationshipProperty.merge")
     # the recursion into session._merge (the cascade) happens only where `'merge' in self._cascade` holds
-    rp_at = _fn_guards(ctx, rp)
-    rec = [c for c in calls_in(rp.node) if (call_name(c) or "").endswith("._merge")]
+    # the recursion may live in a helper method (`obj = self._merge_related_instance(session, current, ..)`): follow it
+
+    def _merge_helper(call):
+        fn = call.func
+        if isinstance(fn, ast.Attribute) and isinstance(fn.value, ast.Name) and fn.value.id == "self" and rp.cls is not None:
+            m = ctx.index.resolve_method(rp.cls, fn.attr)
+            if m is not None and m.node is not rp.node and any((call_name(c) or "").endswith("._merge") for c in calls_in(m.node)):
+                ctx.functions_analysed.add(m.key)
+                return (m.node, ast.Name(id="self", ctx=ast.Load()))
+        return None
+
+    from ._helpers_rob_f2 import inline_local_calls
+    rp_nf, _n = inline_local_calls(rp.node, _merge_helper, depth=2)
+    rp_at = _fn_guards(ctx, rp_nf)
+    rec = [c for c in calls_in(rp_nf) if (call_name(c) or "").endswith("._merge")]
     ctx.require(rec, f"{rp.key}: no session._merge(..) recursion found")
     merge_guard = all({("'merge' in self._cascade", True), ("'merge' in self.cascade", True)} & rp_at(c) for c in rec)
     reach_of = {}
@@ -584,6 +600,11 @@ def _state_discarders(ctx):
     return out
 
 
+def _mentions_walk(fnode) -> bool:
+    """cheap pre-check: the function names `cascade_iterator` as an attribute somewhere (call or bound-method alias)"""
+    return any(isinstance(n, ast.Attribute) and n.attr == "cascade_iterator" for n in ast.walk(fnode))
+
+
 def _is_walk(call, env):
     fn = call.func
     if isinstance(fn, ast.Name):
@@ -591,7 +612,19 @@ def _is_walk(call, env):
     return isinstance(fn, ast.Attribute) and fn.attr == "cascade_iterator" and len(call.args) >= 2
 
 
+_BARE_WALK: dict = {}
+
+
 def _returns_bare_walk(fnode):
+    k = id(fnode)
+    if k not in _BARE_WALK or _BARE_WALK[k][0] is not fnode:
+        _BARE_WALK[k] = (fnode, _returns_bare_walk_uncached(fnode))
+    return _BARE_WALK[k][1]
+
+
+def _returns_bare_walk_uncached(fnode):
+    if not _mentions_walk(fnode):
+        return False
     env = env_of(fnode)
     for n in walk_local(fnode):
         if isinstance(n, ast.Return) and n.value is not None:
@@ -607,6 +640,7 @@ class _ClassView:
     def __init__(self, ctx, cls, discarders):
         self.ctx, self.cls, self.discarders = ctx, cls, discarders
         self._disc = {}
+        self._walks = {}
 
     def method(self, call):
         fn = call.func
@@ -636,8 +670,13 @@ class _ClassView:
         return res
 
     def has_walk(self, fi):
-        env = env_of(fi.node)
-        return any(_is_walk(c, env) for c in calls_in(fi.node))
+        k = fi.key
+        if k not in self._walks:
+            self._walks[k] = False
+            if _mentions_walk(fi.node):
+                env = env_of(fi.node)
+                self._walks[k] = any(_is_walk(c, env) for c in calls_in(fi.node))
+        return self._walks[k]
 
     def resolver(self):
         def resolve(call):
@@ -775,21 +814,26 @@ def r6(ctx):
     views = {}
     n_sites = 0
     for m in ctx.index.all_modules():
-        if not m.relpath.startswith("orm/"):
+        if not m.relpath.startswith("orm/") or "cascade_iterator" not in m.source:
             continue
         seen_nodes = set()
         for fi in ctx.index.all_functions(m):
             if id(fi.node) in seen_nodes or fi.type_only:
                 continue
             seen_nodes.add(id(fi.node))
-            env0 = env_of(fi.node)
             view = views.setdefault(fi.cls.key if fi.cls is not None else None, _ClassView(ctx, fi.cls, discarders))
-            lexical = [c for c in calls_in(fi.node) if _is_walk(c, env0)]
-            via_helper = [c for c in calls_in(fi.node) if (view.method(c) is not None and view.method(c).node is not fi.node
-                                                           and _returns_bare_walk(view.method(c).node))]
+            own_calls = calls_in(fi.node)
+            helper_calls = [(c, view.method(c)) for c in own_calls
+                            if isinstance(c.func, ast.Attribute) and isinstance(c.func.value, ast.Name) and c.func.value.id == "self"]
+            helper_calls = [(c, mm) for c, mm in helper_calls if mm is not None and mm.node is not fi.node]
+            lexical = []
+            if _mentions_walk(fi.node):
+                env0 = env_of(fi.node)
+                lexical = [c for c in own_calls if _is_walk(c, env0)]
+            via_helper = [c for c, mm in helper_calls if _returns_bare_walk(mm.node)]
             if not lexical and not via_helper:
                 # a helper performs the walk and this function discards state on its own (`self._expire(x); ys = self._walk(x)`)
-                walkers = [c for c in calls_in(fi.node) if view.method(c) is not None and view.method(c).node is not fi.node and view.has_walk(view.method(c))]
+                walkers = [c for c, mm in helper_calls if view.has_walk(mm)]
                 others = [c for c in calls_in(fi.node) if not any(c is w for w in walkers) and (
                     view.is_discard_call(c) or (view.method(c) is not None and view.method(c).node is not fi.node and view.discards(view.method(c))))]
                 if not (walkers and others):
@@ -902,9 +946,12 @@ _MEMBER_SETS = ("_new", "_deleted", "identity_map")
 def _session_sites(ctx, cls):
     sites = {}
     for mname, f in cls.methods.items():
+        if not _mentions_walk(f.node):
+            continue
+        env_f = env_of(f.node)
         for c in calls_in(f.node):
-            if _is_walk(c, env_of(f.node)):
-                lit = const_str(resolve_name(env_of(f.node), c.args[0]))
+            if _is_walk(c, env_f):
+                lit = const_str(resolve_name(env_f, c.args[0]))
                 if lit is not None:
                     sites.setdefault(mname, []).append((lit, c))
     return sites
@@ -1443,3 +1490,18 @@ R.mutant("benign-o2m-presort-deletes-removed-renamed", DEP,
          sub("                for child in history.deleted:\n                    if child is not None and self.hasparent(child) is False:\n                        if self.cascade.delete_orphan:\n                            uowcommit.register_object(child, isdelete=True)\n                        else:\n                            uowcommit.register_object(child)\n",
              "                for removed in list(history.deleted):\n                    if removed is not None and self.hasparent(removed) is False:\n                        if self.cascade.delete_orphan:\n                            uowcommit.register_object(removed, isdelete=True)\n                        else:\n                            uowcommit.register_object(removed)\n"),
          None)
+
+# family rfI_9: the merge recursion extracted into a method of RelationshipProperty
+_MERGE_REC = ("                current_state = attributes.instance_state(current)\n                current_dict = attributes.instance_dict(current)\n                _recursive[(current_state, self)] = True\n"
+              "                obj = session._merge(\n                    current_state,\n                    current_dict,\n                    load=load,\n                    _recursive=_recursive,\n"
+              "                    _resolve_conflict_map=_resolve_conflict_map,\n                )\n")
+_MERGE_CALL = "                obj = self._merge_related_instance(\n                    session, current, load, _recursive, _resolve_conflict_map\n                )\n"
+_MERGE_HELPER = ("    def _merge_related_instance(\n        self, session, current, load, _recursive, _resolve_conflict_map\n    ):\n        current_state = attributes.instance_state(current)\n"
+                 "        current_dict = attributes.instance_dict(current)\n        _recursive[(current_state, self)] = True\n        return session._merge(\n            current_state,\n            current_dict,\n"
+                 "            load=load,\n            _recursive=_recursive,\n            _resolve_conflict_map=_resolve_conflict_map,\n        )\n\n")
+_MERGE_AT = "    def _value_as_iterable(\n"
+R.mutant("benign-relationship-merge-recursion-extracted", "orm/relationships.py",
+         _chain(sub(_MERGE_REC, _MERGE_CALL, count=2), sub(_MERGE_AT, _MERGE_HELPER + _MERGE_AT)), None)
+R.mutant("relationship-merge-recursion-extracted-flag-not-checked", "orm/relationships.py",
+         _chain(sub(_MERGE_REC, _MERGE_CALL, count=2), sub(_MERGE_AT, _MERGE_HELPER + _MERGE_AT),
+                sub("        if \"merge\" not in self._cascade:\n            return\n\n", "")), "C39-R2")
